@@ -52,6 +52,10 @@ func (x *xlat) expr(e ast.Expr) string {
 		}
 	case *ast.ParenExpr:
 		return x.expr(v.X)
+	case *ast.CallExpr:
+		if id, ok := v.Fun.(*ast.Ident); ok && id.Name == "uint64" && len(v.Args) == 1 {
+			return x.expr(v.Args[0])
+		}
 	case *ast.BinaryExpr:
 		a, b := x.expr(v.X), x.expr(v.Y)
 		switch v.Op {
@@ -89,6 +93,7 @@ func extract(repo, out string) error {
 	defs := map[string]string{
 		"perRange0": "0", "align": "0", "tupleTo": "0", "nextJ": "0", "lastAdds": "0",
 		"gbPerRange0": "0", "gbAlign": "0", "gbBucket": "0", "gbFrom": "0", "gbTo": "0", "gbLastTo": "0",
+		"cdL": "0", "cdR": "0",
 	}
 	want := func(st ast.Stmt, text string) {
 		if g.Str(st) != text {
@@ -201,6 +206,59 @@ func extract(repo, out string) error {
 		ok = false
 	}
 
+	// ---- canDivide (fix-width) and its three call sites ----
+	if fd := g.Fn("", "canDivide"); fd != nil && len(fd.Body.List) == 1 {
+		found := false
+		if ret, isRet := fd.Body.List[0].(*ast.ReturnStmt); isRet && len(ret.Results) == 1 {
+			if be, isBin := ret.Results[0].(*ast.BinaryExpr); isBin && be.Op == token.GEQ {
+				rn := map[string]string{"from": "lo", "to": "hi", "divideFactor": "df"}
+				defs["cdL"] = tr(be.X, rn)
+				defs["cdR"] = tr(be.Y, rn)
+				found = true
+			}
+		}
+		if !found {
+			ok = false
+		}
+	} else {
+		ok = false
+	}
+	ifCond := func(fd *ast.FuncDecl, cond string) bool {
+		hit := false
+		if fd == nil {
+			return false
+		}
+		ast.Inspect(fd.Body, func(n ast.Node) bool {
+			if is, isIf := n.(*ast.IfStmt); isIf && g.Str(is.Cond) == cond {
+				hit = true
+			}
+			return true
+		})
+		return hit
+	}
+	if !ifCond(g.Fn("hashRanges", "addElement"), "rng.elements > h.compareThreshold && canDivide(rng.from, rng.to, h.divideFactor)") {
+		ok = false
+	}
+	if !ifCond(g.Fn("hashRanges", "makeBottomRanges"), "newRange.elements > h.compareThreshold && canDivide(newRange.from, newRange.to, h.divideFactor)") {
+		ok = false
+	}
+	if gd, err := goast.Parse(filepath.Join(repo, "app/ldiff/diff.go")); err == nil {
+		hit := false
+		if fd := gd.Fn("diff", "compareResults"); fd != nil {
+			ast.Inspect(fd.Body, func(n ast.Node) bool {
+				if is, isIf := n.(*ast.IfStmt); isIf && gd.Str(is.Cond) == "otherRes.Count <= d.compareThreshold && len(otherRes.Elements) == 0 || len(myRes.Elements) == myRes.Count || !canDivide(r.From, r.To, d.divideFactor)" {
+					hit = true
+				}
+				return true
+			})
+		}
+		if !hit {
+			ok = false
+		}
+	} else {
+		ok = false
+	}
+
 	var sb strings.Builder
 	sb.WriteString("-- GENERATED by `verifharness extract` from /repo/app/ldiff/hashrange.go — do not edit\n")
 	sb.WriteString("namespace AnySync.Generated.LdiffShape\n")
@@ -218,6 +276,8 @@ func extract(repo, out string) error {
 	sb.WriteString("/-- getBottomRange: `from:` of the looked-up tuple -/\ndef gbFrom (lo b per : Nat) : Nat := " + defs["gbFrom"] + "\n")
 	sb.WriteString("/-- getBottomRange: `to:` of the looked-up tuple -/\ndef gbTo (lo b per : Nat) : Nat := " + defs["gbTo"] + "\n")
 	sb.WriteString("/-- getBottomRange: `tuple.to += align` for the last bucket -/\ndef gbLastTo (t al : Nat) : Nat := " + defs["gbLastTo"] + "\n")
+	sb.WriteString("/-- canDivide: left and right side of `>=` (fix-width); shapeOk also pins the three guards using it -/\ndef canDivideL (lo hi : Nat) : Nat := " + defs["cdL"] + "\n")
+	sb.WriteString("def canDivideR (df : Nat) : Nat := " + defs["cdR"] + "\n")
 	sb.WriteString("end AnySync.Generated.LdiffShape\n")
 	return os.WriteFile(filepath.Join(out, "LdiffShape.lean"), []byte(sb.String()), 0o644)
 }
